@@ -11,12 +11,18 @@ Holds(p, idx, key, val) == CASE p.name = "true"   -> TRUE
 Inside(seq, pos) == pos >= 0 /\ pos < Len(seq)
 NextPos(seq, pos) == IF pos < Len(seq) THEN pos + 1 ELSE Len(seq)     \* saturates at n
 PrevPos(seq, pos) == IF pos >= 0 THEN pos - 1 ELSE -1                  \* saturates at -1
-RECURSIVE NextToPos(_, _, _), PrevToPos(_, _, _)
-\* seq is a sequence of <<key, value>> (key = index for index iterators)
-NextToPos(seq, pos, p) == LET q == NextPos(seq, pos) IN
-  IF ~Inside(seq, q) THEN q ELSE IF Holds(p, q, seq[q+1][1], seq[q+1][2]) THEN q ELSE NextToPos(seq, q, p)
-PrevToPos(seq, pos, p) == LET q == PrevPos(seq, pos) IN
-  IF ~Inside(seq, q) THEN q ELSE IF Holds(p, q, seq[q+1][1], seq[q+1][2]) THEN q ELSE PrevToPos(seq, q, p)
+\* seq is a sequence of <<key, value>> (key = index for index iterators).  NextTo stops on the first position after the
+\* cursor whose element satisfies p (n if none), PrevTo on the last one before it (-1 if none).  Written with sets rather than
+\* by recursion so that TLC evaluates them on sequences of thousands of elements (MinOf finds its witness first: TLC
+\* enumerates a set of integers in ascending order).
+MinOf(S) == CHOOSE x \in S : \A y \in S : x <= y
+MaxOf(S) == 0 - MinOf({0 - x : x \in S})
+NextToPos(seq, pos, p) ==
+  LET I == {q \in NextPos(seq, pos) .. (Len(seq) - 1) : Holds(p, q, seq[q+1][1], seq[q+1][2])} IN
+  IF I = {} THEN Len(seq) ELSE MinOf(I)
+PrevToPos(seq, pos, p) ==
+  LET I == {q \in 0 .. PrevPos(seq, pos) : Holds(p, q, seq[q+1][1], seq[q+1][2])} IN
+  IF I = {} THEN -1 ELSE MaxOf(I)
 \* new position of every call; moves return Inside(newpos)
 Move(seq, pos, op, p) ==
   CASE op = "Next"   -> NextPos(seq, pos)
